@@ -2060,7 +2060,8 @@ func (interp *Interpreter) cfg(root *node, sc *scope, importPath, pkgName string
 						if d >= 0 && d < len(ti)-1 {
 							goto tryMethods
 						}
-						if d == len(ti)-1 {
+						if d == len(ti)-1 || n.typ.fieldCount(n.child[1].ident, len(ti)-1) > 1 {
+							// A method, or another field, has the same name at the depth of the field.
 							err = n.cfgErrorf("ambiguous selector: %s", n.child[1].ident)
 							break
 						}
